@@ -235,9 +235,11 @@ def topology_strategy(draw, flavour, eqpt):
     # per-degree ROADM settings on user-visible degrees (the uid of the first element of the link when it is an
     # amplifier the user placed; otherwise the auto-design name of the booster)
     for ml in meta_links:
+        first = next(e for e in elements if e['uid'] == ml['first'])
+        if first['type'] == 'Fiber' and first['params']['length'] > 100:
+            continue    # the fibre will be split and renamed by auto-design: the booster name is not predictable
         if draw(st.integers(0, 5)) == 0:
             r = next(e for e in elements if e['uid'] == f'roadm {ml["from"]}')
-            first = next(e for e in elements if e['uid'] == ml['first'])
             deg = first['uid'] if first['type'] == 'Edfa' else f'Edfa_booster_roadm {ml["from"]}_to_{first["uid"]}'
             params = r.setdefault('params', {})
             kind = draw(st.integers(0, 2))
@@ -276,3 +278,146 @@ def summary(world):
             'span': {k: sp[k] for k in ('power_mode', 'padding', 'EOL', 'max_length')},
             'si': {k: si.get(k) for k in ('f_min', 'f_max', 'spacing', 'power_dbm', 'sys_margins')},
             'sim': world.get('sim')}
+
+
+# --------------------------------------------------------------------------------------------------------------
+# flavours that emphasise what C17's why_tests_cant names: Raman spans, multiband groups with aliases
+
+@st.composite
+def raman_world_strategy(draw):
+    """chain of 2-3 ROADM sites with a narrow SI band (so that estimate_raman_gain stays cheap); some spans are short
+    RamanFiber spans with counter-propagating pumps.  The amplifier in front of a RamanFiber carries a user delta_p
+    (auto-design cannot compute the power rule for a Raman span that was not estimated yet, see DESIGN N6)."""
+    eq = draw(equipment_strategy('small'))
+    si = eq['SI'][0]
+    si['f_min'], si['f_max'] = draw(st.sampled_from([(193.0e12, 193.6e12), (192.0e12, 192.9e12), (194.0e12, 194.5e12)]))
+    si['spacing'] = 50e9
+    si['baud_rate'] = 32e9
+    nsites = draw(st.integers(2, 3))
+    sites = SITES[:nsites]
+    elements, connections, meta_links = [], [], []
+    for i, s in enumerate(sites):
+        elements.append({'uid': f'trx {s}', 'type': 'Transceiver', 'metadata': _loc(i)})
+        elements.append({'uid': f'roadm {s}', 'type': 'Roadm', 'metadata': _loc(i)})
+        connections.append({'from_node': f'trx {s}', 'to_node': f'roadm {s}'})
+        connections.append({'from_node': f'roadm {s}', 'to_node': f'trx {s}'})
+    nraman = 0
+    for i in range(1, nsites):
+        for (x, y) in ((i - 1, i), (i, i - 1)):
+            a, b = sites[x], sites[y]
+            chain = []
+            nf = draw(st.integers(1, 2))
+            for k in range(nf):
+                raman = draw(st.integers(0, 2)) == 0 or (nraman == 0 and (x, y, k) == (nsites - 1, nsites - 2, nf - 1))
+                if raman:
+                    nraman += 1
+                    amp = draw(user_amp_strategy(f'amp {a}{b}-{k}', ['std_medium_gain', 'std_low_gain', '']))
+                    amp['operational']['delta_p'] = draw(st.sampled_from([0, 1, -1, -2]))
+                    amp['operational'].setdefault('out_voa', 0)
+                    if amp['operational'].get('out_voa') is None:
+                        amp['operational']['out_voa'] = 0
+                    chain.append(amp)
+                    chain.append({'uid': f'raman ({a} → {b})-{k}', 'type': 'RamanFiber', 'type_variety': 'SSMF',
+                                  'params': {'length': draw(st.sampled_from([20.0, 30.0, 12.0, 40.0])),
+                                             'length_units': 'km', 'loss_coef': 0.2, 'att_in': 0,
+                                             'con_in': draw(st.sampled_from([0.5, 0.2])),
+                                             'con_out': draw(st.sampled_from([0.5, 0.3]))},
+                                  'operational': {'temperature': 283, 'raman_pumps': [
+                                      {'power': draw(st.sampled_from([0.2, 0.1, 0.25])), 'frequency': 205e12,
+                                       'propagation_direction': 'counterprop'},
+                                      {'power': draw(st.sampled_from([0.2, 0.15])), 'frequency': 201e12,
+                                       'propagation_direction': 'counterprop'}]},
+                                  'metadata': _loc(x, k)})
+                else:
+                    if k > 0 and draw(st.booleans()):
+                        chain.append(draw(user_amp_strategy(f'amp {a}{b}-{k}')))
+                    chain.append({'uid': f'fiber ({a} → {b})-{k}', 'type': 'Fiber', 'type_variety': 'SSMF',
+                                  'params': {'length': draw(st.sampled_from([80.0, 50.0, 100.0, 20.0])),
+                                             'length_units': 'km', 'loss_coef': 0.2, 'con_in': None, 'con_out': None},
+                                  'metadata': _loc(x, k)})
+            elements.extend(chain)
+            uids = [f'roadm {a}'] + [c['uid'] for c in chain] + [f'roadm {b}']
+            for u, v in zip(uids, uids[1:]):
+                connections.append({'from_node': u, 'to_node': v})
+            meta_links.append({'from': a, 'to': b, 'first': uids[1], 'last': uids[-2], 'km': None})
+    if draw(st.booleans()):
+        elements = draw(st.permutations(elements))
+        connections = draw(st.permutations(connections))
+    topo = {'network_name': 'raman', 'elements': list(elements), 'connections': list(connections)}
+    return {'kind': 'net', 'flavour': 'raman', 'eqpt': eq, 'topo': topo, 'sim': None,
+            'meta': {'sites': sites, 'links': meta_links}}
+
+
+MB_EQPT = _load(TESTDATA / 'eqpt_config_multiband.json')
+
+
+@st.composite
+def multiband_world_strategy(draw):
+    """chain / triangle of ROADM sites; every link direction is roadm -> amp -> fibre -> (amp|fused) -> fibre -> amp
+    -> roadm with explicit Multiband_amplifier (C+L) or plain Edfa (C only) elements; the library may contain several
+    multiband groups listing the same single-band amplifiers (what `other_name` aliases create)."""
+    eq = deepcopy(MB_EQPT)
+    ndup = draw(st.integers(0, 3))
+    base = next(a for a in eq['Edfa'] if a['type_variety'] == 'std_medium_gain_multiband')
+    pos = eq['Edfa'].index(base)
+    for i in range(ndup):
+        dup = deepcopy(base)
+        dup['type_variety'] = ['std_medium_gain_multiband_new', 'mg_multiband_alias', 'a_multiband'][i]
+        eq['Edfa'].insert(pos + (i % 2), dup)
+    if draw(st.booleans()):
+        base2 = next(a for a in eq['Edfa'] if a['type_variety'] == 'std_low_gain_multiband_bis')
+        dup = deepcopy(base2)
+        dup['type_variety'] = 'lg_multiband_alias'
+        eq['Edfa'].append(dup)
+    eq['Span'][0]['power_mode'] = draw(st.sampled_from([True, True, False]))
+    eq['Span'][0]['EOL'] = draw(st.sampled_from([0, 0.5]))
+    nsites = draw(st.integers(2, 3))
+    sites = SITES[:nsites]
+    links = [(i - 1, i) for i in range(1, nsites)]
+    if nsites == 3 and draw(st.booleans()):
+        links.append((0, 2))
+    elements, connections, meta_links = [], [], []
+    roadms = {}
+    for i, s in enumerate(sites):
+        elements.append({'uid': f'trx {s}', 'type': 'Transceiver', 'metadata': _loc(i)})
+        roadms[s] = {'uid': f'roadm {s}', 'type': 'Roadm', 'metadata': _loc(i)}
+        elements.append(roadms[s])
+        connections.append({'from_node': f'trx {s}', 'to_node': f'roadm {s}'})
+        connections.append({'from_node': f'roadm {s}', 'to_node': f'trx {s}'})
+    bands = [{'f_min': 191.3e12, 'f_max': 196.0e12}, {'f_min': 187.0e12, 'f_max': 190.0e12}]
+    for (ia, ib) in links:
+        kind = draw(st.sampled_from(['mb_no_design', 'mb_type_variety', 'mb_no_design', 'single']))
+        for (x, y) in ((ia, ib), (ib, ia)):
+            a, b = sites[x], sites[y]
+            typ = 'Edfa' if kind == 'single' else 'Multiband_amplifier'
+            mid_fused = draw(st.booleans())
+
+            def amp(uid):
+                el = {'uid': uid, 'type': typ, 'metadata': _loc(x)}
+                if kind == 'mb_type_variety':
+                    el['type_variety'] = 'std_medium_gain_multiband'
+                return el
+            chain = [amp(f'booster {a}{b}'),
+                     {'uid': f'fiber ({a} → {b})-0', 'type': 'Fiber', 'type_variety': 'SSMF',
+                      'params': {'length': draw(st.sampled_from([50.0, 80.0, 60.0])), 'loss_coef': 0.2,
+                                 'length_units': 'km'}, 'metadata': _loc(x)},
+                     {'uid': f'mid {a}{b}', 'type': 'Fused', 'params': {'loss': 0.0}, 'metadata': _loc(x)}
+                     if mid_fused else amp(f'mid {a}{b}'),
+                     {'uid': f'fiber ({a} → {b})-1', 'type': 'Fiber', 'type_variety': 'SSMF',
+                      'params': {'length': draw(st.sampled_from([50.0, 40.0, 70.0])), 'loss_coef': 0.2,
+                                 'length_units': 'km'}, 'metadata': _loc(x)},
+                     amp(f'preamp {a}{b}')]
+            elements.extend(chain)
+            uids = [f'roadm {a}'] + [c['uid'] for c in chain] + [f'roadm {b}']
+            for u, v in zip(uids, uids[1:]):
+                connections.append({'from_node': u, 'to_node': v})
+            if kind == 'mb_no_design':
+                roadms[a].setdefault('params', {}).setdefault('per_degree_design_bands', {})[chain[0]['uid']] = \
+                    deepcopy(bands)
+            meta_links.append({'from': a, 'to': b, 'first': uids[1], 'last': uids[-2], 'km': None, 'kind': kind})
+    if draw(st.booleans()):
+        elements = draw(st.permutations(elements))
+        connections = draw(st.permutations(connections))
+    topo = {'network_name': 'mb', 'elements': list(elements), 'connections': list(connections)}
+    return {'kind': 'net', 'flavour': 'multiband', 'eqpt': eq, 'topo': topo, 'sim': None,
+            'meta': {'sites': sites, 'links': meta_links}}
